@@ -9,6 +9,7 @@ import (
 	"github.com/sarchlab/akita/v4/mem/mem"
 	"github.com/sarchlab/akita/v4/mem/vm"
 	"github.com/sarchlab/akita/v4/sim"
+	"github.com/sarchlab/akita/v4/tracing"
 	"github.com/sarchlab/mgpusim/v4/amd/driver"
 	"github.com/sarchlab/mgpusim/v4/amd/emu"
 	"github.com/sarchlab/mgpusim/v4/amd/protocol"
@@ -78,6 +79,11 @@ type DOp struct {
 	CompletedAfter int    `json:"completed_after"`
 	Order          []int  `json:"order"` // answered requests: index into flushes ++ copy requests
 	Completed      bool   `json:"completed"`
+	// how often the driver reported the command complete (tracing.EndTask with the
+	// command's ID, i.e. completeMemCopyH2D/D2H resp. the magic copy), and the
+	// number of answers delivered when the operation panicked (-1: no panic)
+	Completions int `json:"completions"`
+	CrashAt     int `json:"crash_at"`
 }
 
 type DrvCase struct {
@@ -246,12 +252,25 @@ type drvEnv struct {
 	memory  zeroMem
 	pid     vm.PID
 	stuck   bool
+	ends    map[string]int
+}
+
+// endHook counts the tasks the driver reports finished (tracing.EndTask), by ID.
+type endHook struct{ e *drvEnv }
+
+func (h *endHook) Func(ctx sim.HookCtx) {
+	if ctx.Pos != tracing.HookPosTaskEnd {
+		return
+	}
+	if t, ok := ctx.Item.(tracing.Task); ok {
+		h.e.ends[t.ID]++
+	}
 }
 
 const dramPages = 256
 
 func newDrvEnv(c *DrvCase) *drvEnv {
-	e := &drvEnv{c: c, memory: zeroMem{}}
+	e := &drvEnv{c: c, memory: zeroMem{}, ends: map[string]int{}}
 	engine := sim.NewSerialEngine()
 	e.pt = vm.NewPageTable(c.Lg)
 	e.storage = mem.NewStorage(64 * mem.GB)
@@ -261,6 +280,7 @@ func newDrvEnv(c *DrvCase) *drvEnv {
 		b = b.WithMagicMemoryCopyMiddleware()
 	}
 	e.d = b.Build("Driver")
+	e.d.AcceptHook(&endHook{e})
 	ps := uint64(1) << c.Lg
 	c.Devs = []DevJ{{ID: 0, Lo: ps, Size: 4 * mem.GB}}
 	next := ps + 4*mem.GB
@@ -366,10 +386,17 @@ func (e *drvEnv) run(op *DOp, rng *vh.Rng) {
 	if op.Data == nil {
 		op.Data = []int{}
 	}
+	op.CrashAt = -1
+	cmdID := ""
+	delivered := 0
 	defer func() {
 		if x := recover(); x != nil {
 			op.Crash = true
+			op.CrashAt = delivered
 			e.stuck = true
+		}
+		if cmdID != "" {
+			op.Completions = e.ends[cmdID]
 		}
 	}()
 	switch op.Op {
@@ -408,6 +435,11 @@ func (e *drvEnv) run(op *DOp, rng *vh.Rng) {
 		dst = typedFromBytes(op.Typ, make([]byte, op.N))
 		e.d.EnqueueMemCopyD2H(e.q, dst, driver.Ptr(op.Addr))
 	}
+	if head := e.q.Peek(); head != nil {
+		cmdID = head.GetID()
+	}
+	// the driver runs until it has nothing left to do before any answer is
+	// delivered: every acknowledgement is "late" by many ticks
 	msgs := e.settle()
 	var flushes, copies []sim.Msg
 	for _, m := range msgs {
@@ -496,7 +528,9 @@ func (e *drvEnv) run(op *DOp, rng *vh.Rng) {
 		if err := e.gpuPort.Deliver(rsp); err != nil {
 			panic("driver port full")
 		}
+		delivered = k
 		extra := e.settle()
+		delivered = k + 1
 		op.Total += len(extra)
 		if op.CompletedAfter < 0 && e.q.NumCommand() == 0 {
 			op.CompletedAfter = k + 1
@@ -737,8 +771,70 @@ func genDrv(rng *vh.Rng, idx int) DrvCase {
 		e.run(&op, rng)
 		c.Ops = append(c.Ops, op)
 	}
+	if !e.stuck && idx%4 < 3 {
+		genZeroByteProbes(e, rng)
+	}
 	e.finish()
 	return c
+}
+
+// genZeroByteProbes: the context is put into the state after a kernel launch
+// (every buffer may be dirty in the L2 caches), then copies of zero bytes in
+// both directions are issued at addresses strictly inside, at the start of, at
+// the end of and outside the tracked buffers.  Such a copy has no copy request;
+// whether it has flush requests depends on the position.  The answers are
+// delivered only after the driver has run out of work (see run).
+func genZeroByteProbes(e *drvEnv, rng *vh.Rng) {
+	c := e.c
+	dirty := DOp{Op: "dirty"}
+	e.run(&dirty, rng)
+	c.Ops = append(c.Ops, dirty)
+	inAny := func(a uint64) bool {
+		for _, x := range c.Allocs {
+			if x.Ptr <= a && a < x.Ptr+x.Size {
+				return true
+			}
+		}
+		return false
+	}
+	var top uint64
+	for _, x := range c.Allocs {
+		if x.Ptr+x.Size > top {
+			top = x.Ptr + x.Size
+		}
+	}
+	a := c.Allocs[rng.Intn(len(c.Allocs))]
+	var addrs []uint64
+	if a.Size >= 2 {
+		addrs = append(addrs, a.Ptr+1+uint64(rng.Intn(int(a.Size-1)))) // strictly inside
+		addrs = append(addrs, a.Ptr+a.Size-1, a.Ptr+1)
+	}
+	addrs = append(addrs, a.Ptr) // start
+	if !inAny(a.Ptr + a.Size) {
+		addrs = append(addrs, a.Ptr+a.Size) // end
+	}
+	if !inAny(a.Ptr+a.Size+1) && rng.Bool() {
+		addrs = append(addrs, a.Ptr+a.Size+1) // outside, in the page tail
+	} else {
+		addrs = append(addrs, top+17+uint64(rng.Intn(5000))) // outside everything
+	}
+	for i := len(addrs) - 1; i > 0; i-- {
+		j := rng.Intn(i + 1)
+		addrs[i], addrs[j] = addrs[j], addrs[i]
+	}
+	for _, ad := range addrs {
+		if e.stuck {
+			return
+		}
+		op := DOp{Addr: ad, Typ: "bytes", Data: []int{}}
+		if rng.Bool() {
+			op.Op = "h2d"
+		} else {
+			op.Op = "d2h"
+		}
+		e.run(&op, rng)
+		c.Ops = append(c.Ops, op)
+	}
 }
 
 func genDrvCases(seed uint64, n int) []DrvCase {
